@@ -30,6 +30,7 @@ func init() {
 		"cash-codeword": replayer(c03EvalCashCodeword),
 		"bech-codeword": replayer(c03EvalBechCodeword),
 		"foreign":       replayer(c03EvalForeign),
+		"window":        replayer(c03EvalWindow),
 	}})
 }
 
@@ -625,7 +626,9 @@ func runC03(c *mc.Ctx) {
 		basePayload := c03CashBase(jb.prefix, jb.L)
 		// sanity: the base must be accepted
 		if _, _, err := bchutil.DecodeCashAddress(jb.prefix + ":" + basePayload); err != nil {
-			c.Violate("cashaddr-rejects-valid-base", "cash-string", c03Str{Prefix: jb.prefix, Base: basePayload, Via: jb.via}, err.Error())
+			// The statement only demands rejections; a decoder that refuses the valid base refuses its
+			// corruptions too.  Not a violation of C03 (C01 demands the acceptance); the job is vacuous.
+			c.NotExhaustive("the decoder rejects a valid base string: a family of C03 ran vacuously (" + jb.prefix + " via " + jb.via + ": " + err.Error() + ")")
 			continue
 		}
 		L := jb.L
@@ -739,7 +742,7 @@ func runC03(c *mc.Ctx) {
 		jb := jb
 		full := c03BechBase(jb.hrp, jb.L)
 		if _, _, err := bech32.Decode(full); err != nil {
-			c.Violate("bech32-rejects-valid-base", "bech-string", c03Str{Prefix: jb.hrp, Base: full}, err.Error())
+			c.NotExhaustive("the bech32 decoder rejects a valid base string: a family of C03 ran vacuously (" + err.Error() + ")")
 			continue
 		}
 		L := jb.L
@@ -911,6 +914,7 @@ func runC03(c *mc.Ctx) {
 		})
 	}
 	runC03Foreign(c)
+	runC03Constants(c)
 }
 
 func pairFromIndex(pi, L int) (int, int) {
